@@ -130,6 +130,9 @@ def build_sites(objs, rng):
                       sites["FLAG_HAS_EQUALS"].append(Site("FLAG_HAS_EQUALS", o["file"], line_edit(o["file"], m["line"], lambda s: s.replace("&", "==", 1)), where))
         # object-level rules
         where = f"{o['kind']} {o['name']} ({tagk})"
+        # the two halves of a MSG pair share one entry of the opcode index: a context of their own for the index rules
+        half = "server half of a MSG pair" if o["name"].endswith("_Server") else "client half of a MSG pair" if o["name"].endswith("_Client") else "plain"
+        where_ix = where + " " + half
         # misplaced self.size: a `= self.size` field may only follow members of constant size — not a string / packed guid / variable array,
         # not an if statement, not an optional
         VAR_TYPES = ("CString", "SizedCString", "String", "PackedGuid")
@@ -148,7 +151,7 @@ def build_sites(objs, rng):
         # message name / opcode against the opcode index (world messages): a known opcode under another name, a name the index does not have
         if o["kind"] in ("cmsg", "smsg", "msg") and o.get("opcode_int") is not None and o["name"] not in names_with_tests:
             nm_ = o["name"]
-            sites["OPCODE_HAS_INCORRECT_NAME"].append(Site("OPCODE_HAS_INCORRECT_NAME", o["file"], line_edit(o["file"], o["line"], lambda s, nm_=nm_: re.sub(r"\b" + nm_ + r"\b", nm_ + "_ZZVERIF", s, count=1)), where))
+            sites["OPCODE_HAS_INCORRECT_NAME"].append(Site("OPCODE_HAS_INCORRECT_NAME", o["file"], line_edit(o["file"], o["line"], lambda s, nm_=nm_: re.sub(r"\b" + nm_ + r"\b", nm_ + "_ZZVERIF", s, count=1)), where_ix))
 
             def not_in_index(root, o=o, nm_=nm_):
                 p = os.path.join(root, os.path.relpath(o["file"], REPO))
@@ -193,7 +196,10 @@ def build_sites(objs, rng):
                     return False
                 sites["NO_VERSIONS"].append(Site("NO_VERSIONS", o["file"], nover, where))
         if o["kind"] in ("cmsg", "smsg", "msg") and o["opcode"] and tagk != "paste":
-            sites["INCORRECT_OPCODE_FOR_MESSAGE"].append(Site("INCORRECT_OPCODE_FOR_MESSAGE", o["file"], line_edit(o["file"], o["line"], lambda s, oc=o["opcode"]: s.replace(oc, "0x5FF", 1)), where))
+            sites["INCORRECT_OPCODE_FOR_MESSAGE"].append(Site("INCORRECT_OPCODE_FOR_MESSAGE", o["file"], line_edit(o["file"], o["line"], lambda s, oc=o["opcode"]: s.replace(oc, "0x5FF", 1)), where_ix))
+            # … and the neighbouring opcode (another message's number) instead of one nobody uses
+            if o.get("opcode_int") is not None:
+                sites["INCORRECT_OPCODE_FOR_MESSAGE"].append(Site("INCORRECT_OPCODE_FOR_MESSAGE", o["file"], line_edit(o["file"], o["line"], lambda s, oc=o["opcode"], oi=o["opcode_int"]: s.replace(oc, f"0x{oi + 1:04X}", 1)), where_ix + " neighbour"))
     for name, d in definers.items():
         if not wowm.is_generated(d) or len(d["fields"]) < 2:
             continue
@@ -254,6 +260,14 @@ def run(tier, seed):
             # spread over contexts: prefer distinct `where` kinds
             picked, seen_ctx = [], set()
             order = list(range(len(cands)))
+            if rule in ("INCORRECT_OPCODE_FOR_MESSAGE", "OPCODE_HAS_INCORRECT_NAME", "MESSAGE_NOT_IN_INDEX"):
+                # the index rules: one site of EVERY context (message kind, half of a MSG pair, own tags / paste, unused / neighbouring number)
+                by_ctx = collections.defaultdict(list)
+                for i in order:
+                    by_ctx[re.sub(r"\b[A-Z][A-Za-z0-9_]+\b", "N", cands[i].where)].append(i)
+                for ctx in sorted(by_ctx)[:24]:
+                    i = rng.choice(by_ctx[ctx])
+                    picked.append(cands[i]); seen_ctx.add(ctx); order.remove(i)
             for _ in range(min(len(order), 400)):
                 i = order.pop(rng.below(len(order)))
                 ctx = re.sub(r"\b[A-Z][A-Za-z0-9_]+\b", "N", cands[i].where)
